@@ -87,7 +87,10 @@ def history(ctx, rng, desc, hid):
     local = snet.create_node(canopen.LocalNode(K, od_factory()))
     remote.sdo.RESPONSE_TIMEOUT = 0.05
     cob = {"local": 0x180 + K, "remote": 0x200 + K}
-    maps = {"local": local.tpdo[1], "remote": remote.rpdo[1]}
+    # usually a local node transmits its TPDOs and a master the RPDOs of a remote node, but any map can be started
+    # (a gateway re-transmitting what it consumes, a tool simulating the device's TPDO, ...)
+    usual = rng.random() < 0.6
+    maps = {"local": local.tpdo[1], "remote": remote.rpdo[1]} if usual else {"local": local.rpdo[1], "remote": remote.tpdo[1]}
     for name, m in maps.items():
         m.cob_id = cob[name]
         m.enabled = True
@@ -96,9 +99,10 @@ def history(ctx, rng, desc, hid):
     exp = Expect()
     ops = []
     flavour = "modifiable-kernel-copy" if mod == "copy" else "modifiable" if mod else "fixed"
+    direction = "usual-direction" if usual else "unusual-direction"
 
     def case():
-        return {"history": hid, "flavour": flavour, "ops": ops[-12:]}
+        return {"history": hid, "flavour": flavour, "pdo_maps": direction, "ops": ops[-12:]}
 
     def compare(after):
         wm, ws = exp.table(cob)
@@ -180,7 +184,7 @@ def history(ctx, rng, desc, hid):
                 p = rng.choice([None, 0.02, 0.2, 1.5])
                 running = exp.pdo[which] is not None
                 ops.append(("pdo.start", which, p))
-                ctx.case(("pdo.start", running, p is None, flavour), nontrivial=running)
+                ctx.case(("pdo.start", running, p is None, flavour, direction), nontrivial=running)
                 try:
                     maps[which].start(p)
                     if p is not None:
@@ -309,7 +313,7 @@ def history(ctx, rng, desc, hid):
                 ctx.violation(f"disconnect-raised:{type(exc).__name__}", f"{who}.disconnect() raised {exc!r}", case())
                 continue
             ctx.count("disconnects")
-            ctx.case(("disconnect", who, exp.pdo["remote" if who == "master" else "local"] is not None, flavour),
+            ctx.case(("disconnect", who, exp.pdo["remote" if who == "master" else "local"] is not None, flavour, direction),
                      nontrivial=exp.pdo["remote" if who == "master" else "local"] is not None)
             pdo_live = [t for t in (st.live_at_shutdown or []) if t["can_id"] in (cob["local"], cob["remote"])]
             if st.shutdown_calls != 1:
